@@ -43,6 +43,13 @@ class AsmLayout:
         out = []
         short = SHORT if tier == "thorough" else ["BRA", "BEQ", "BSR", "BHS"]
         long_ = LONG if tier == "thorough" else ["LBRA", "LBEQ", "LBSR"]
+        # a branch / PCR operand whose target is its OWN statement (distance -length): every branch mnemonic (cheap, concrete shape)
+        for m in SHORT + LONG:
+            for org in ("noorg", "org"):
+                out.append({"id": "relself/%s/%s" % (m, org), "kind": "relself", "mnemonic": m, "org": org})
+        for m, tmpl in (("LDA", "T,PCR"), ("LEAX", "T,PCR"), ("LDY", "[T,PCR]")):
+            out.append({"id": "pcrself/%s/%s" % (m, "ind" if tmpl.startswith("[") else "dir"), "kind": "relself", "mnemonic": m, "org": "org",
+                        "operand": tmpl})
         for direction in ("fwd", "bwd"):
             for org in ("noorg", "org"):
                 for m in short:
@@ -180,6 +187,32 @@ class AsmLayout:
         env.ensure("C03:target", (addrs[si] + len(st.bytes) + d.offset - addrs[ti]) % 65536 == 0, ("C03", "C01"),
                    sig("wrong-target"), split=sp)
         self._symbols(env, run, addrs, ti, org, cell, sig, split=sp)
+
+    def k_relself(self, env, cell, native):
+        """`T <branch> T` / `T LDA T,PCR`: the displacement must lead back to the statement's own address"""
+        m = cell["mnemonic"]
+        head, org = [], 0
+        if cell["org"] == "org":
+            otxt, org = literal(env, "hex4", "org")
+            env.assume(org <= 65000)
+            head.append(env.text(" ORG ", otxt, "\n"))
+        lines = head + [" NOP\n", "T %s %s\n" % (m, cell.get("operand", "T")), " NOP\n"]
+        si = len(head) + 1
+        env.info["lines"] = lines
+        run = assemble(env, lines)
+        sig = lambda what: (lambda: "relself:%s:%s:%s" % (m, cell["org"], what)) if native else None
+        if not self._gate(env, run, sig):
+            return
+        if run.status == "diag":
+            env.fail("C03:accepted", ("C03", "C01"), sig("rejected:%s" % run.exc_class))
+            return
+        st = run.stmts[si]
+        d = mc6809.decode(st.bytes)
+        if not (d.ok and d.length == len(st.bytes) and m in mc6809.names_of(d.op)):
+            env.fail("C03:target", ("C03", "C01"), sig("undecodable:%s" % (d.why or dsum(d))))
+            return
+        env.ensure("C02:size", st.size == len(st.bytes), ("C02",), sig("size=%s,len=%d" % (st.size, len(st.bytes))))
+        env.ensure("C03:target", (len(st.bytes) + d.offset) % 65536 == 0, ("C03", "C01"), sig("wrong-target"))
 
     def _symbols(self, env, run, addrs, ti, org, cell, sig, split=None):
         tv = run.symbols.get("T")
